@@ -130,7 +130,11 @@ def run(rep: Report, ctx: Any) -> str:
                       "is hashed (looked up in / stored into a dict or set) has no unhashable type (list / dict / set / untyped Any) "
                       "among its abstract types unless a try around the operation catches TypeError; a document value handed to a "
                       "parameter declared as a (non-optional) container cannot be None: an absent optional section has been replaced by an "
-                      "empty container or tested on every way to the call")
+                      "empty container or tested on every way to the call; an optional field or result (None among its abstract types) derived "
+                      "from the document is not handed to an operation that rejects None - attribute access / method call on it, "
+                      "arithmetic, concatenation, ordering, container operations, the text and number functions of the standard library "
+                      "(textwrap, re, len, int, ...) - unless a fallback, a test or a store of a non-None value rules None out on every "
+                      "way there or a try catches TypeError and AttributeError")
     rep.rule("R06.3", "every call through a dynamically imported property template is guarded by `{% if alias.macro %}` or every "
                       "template the alias can denote defines the macro")
     rep.rule("R06.4", "every while loop and every recursive cycle of the call graph has one of five ranking arguments, decided on the "
@@ -313,6 +317,9 @@ def run(rep: Report, ctx: Any) -> str:
 
     # (vi) optional sections of the document handed on where a container is expected
     _none_arguments(rep, ctx, [f for f in funcs if not f.module.name.startswith(f"{PKG}.schema")])
+
+    # (vii) optional values of the document handed to operations that reject None
+    _none_operations(rep, ctx, [f for f in funcs if not f.module.name.startswith(f"{PKG}.schema") or f in validators], validators)
 
     # ------------------------------------------------------------------------------------------------- R06.3
     rep.floor("dispatch_sites", len(ji.dispatches), 40)
@@ -1576,6 +1583,21 @@ class _Pass:
                 out |= {id(x) for x in self.fl.cfg.reachable_from(b, avoid=lambda x: x is self.loop)}
         return out
 
+    def item_values(self) -> set[str]:
+        """the names that hold the item of the iteration or a value computed from it: the loop targets, and every local of the
+        iteration each of whose bindings (in the pass) reads such a name - `rec = Record(item, err)`, `a, b = split(item)`"""
+        out = set(self.targets)
+        reads = {id(s): {x.id for x in walk_own(s) if isinstance(x, ast.Name) and isinstance(x.ctx, ast.Load)} for s in self.body}  # type: ignore[arg-type]
+        changed = True
+        while changed:
+            changed = False
+            for nm in sorted(self.iteration_locals - out):
+                bs = [s for s in self.body if _binds_name(s, nm)]
+                if bs and all(reads[id(s)] & out for s in bs):
+                    out.add(nm)
+                    changed = True
+        return out
+
     def appends(self, r: str) -> list[tuple[ast.AST, ast.Call]]:
         return [(s, c) for s in self.body for c in walk_own(s)  # type: ignore[arg-type]
                 if isinstance(c, ast.Call) and isinstance(c.func, ast.Attribute) and c.func.attr == "append" and norm(c.func.value) == r]
@@ -1601,9 +1623,10 @@ class _Pass:
             return f"`{r}` is changed by more than the one `append` per item"
         if any(id(b) in self.after(a) for a, _ in sites for b, _ in sites):
             return f"an item can be appended to `{r}` more than once in one iteration"
+        item = self.item_values()
         for _, c in sites:
             names = _names_of(norm(c.args[0])) if len(c.args) == 1 else frozenset()
-            if not (names & self.targets) or not (names <= self.iteration_locals):
+            if not (names & item) or not (names <= self.iteration_locals):
                 return f"`{r}` receives `{norm(c.args[0]) if c.args else ''}`, which is not built from the item of the current pass"
         return None
 
@@ -2554,16 +2577,44 @@ def _may_be_none(it: Any, f: FuncInfo, fl: "_Flow", lc: Any, e: ast.AST | None, 
     text = norm(e)
 
     def not_none(test: ast.expr, outcome: bool) -> bool:
-        return any(fact in (("truthy", text, True), ("differs", text, "None")) for atom, val in _implied_deep(test, outcome, lc)
-                   for fact in _atom_facts(atom, val))
+        for atom, val in _implied_deep(test, outcome, lc):
+            if any(fact in (("truthy", text, True), ("differs", text, "None")) for fact in _atom_facts(atom, val)):
+                return True
+            cl = _isinstance_of(atom, text)
+            if cl is not None and val and not ({"object", "Any", "NoneType"} & set(cl)):
+                return True  # an instance of a class that is not None's
+            if val and isinstance(atom, ast.Compare) and len(atom.ops) == 1 and isinstance(atom.ops[0], ast.Eq) and any(
+                    norm(a) == text and isinstance(b, ast.Constant) and b.value is not None
+                    for a, b in ((atom.left, atom.comparators[0]), (atom.comparators[0], atom.left))):
+                return True  # equal to a constant that is not None
+        return False
 
     if any(not_none(t, v) for t, v in _guards_in_statement(st, e)):
         return False
-    if st is not None and not fl.reach([(_ENTRY, None, b) for b, _ in fl.out(_ENTRY)], [st],
-                                       stop_edge=lambda a, lab: lab is not None and isinstance(a, (ast.If, ast.While)) and not_none(a.test, lab)):
-        return False
+    if st is not None:
+        # ways to the statement: from the entry of the function and from every statement that gives the expression a new value
+        # (binds its root name, stores into it); a way ends at a test that rules None out and at a store of a value that cannot be
+        # None (`x.detail = x.detail or ""`, `x.detail += ".."`) - the statement itself reads the expression before it stores
+        root = _root(e) if isinstance(e, (ast.Name, ast.Attribute, ast.Subscript)) else None
+        fills: list[ast.AST] = []
+        kills: list[ast.AST] = []
+        for n in (fl.cfg.stmts() if root is not None and depth < 3 else []):
+            stores = isinstance(n, (ast.Assign, ast.AnnAssign, ast.AugAssign)) and any(
+                norm(t) == text for t in (n.targets if isinstance(n, ast.Assign) else [n.target]))
+            if stores and (isinstance(n, ast.AugAssign) or (n.value is not None and not _may_be_none(it, f, fl, lc, n.value, n, seen, depth + 3))):  # type: ignore[union-attr]
+                fills.append(n)
+            elif stores or _binds_name(n, root):  # type: ignore[arg-type]
+                kills.append(n)
+        starts = [(_ENTRY, None, b) for b, _ in fl.out(_ENTRY)] + [(k, lab, b) for k in kills for b, lab in fl.out(k)]
+        if not fl.reach(starts, [st], stop_node=lambda n: any(n is x for x in fills),
+                        stop_edge=lambda a, lab: lab is not None and isinstance(a, (ast.If, ast.While)) and not_none(a.test, lab)):
+            return False
     if isinstance(e, ast.Name) and e.id not in seen and e.id not in [p.arg for p in f.params]:
         defs = lc.defs.get(e.id, [])
+        if defs and all(k.startswith("assign[") and not isinstance(v, (ast.Tuple, ast.List)) for k, _, v in defs):
+            # a component of an unpacked tuple that is not written out: the interpreter keeps one abstract value for all the
+            # components of a tuple, so None among the types may belong to another component - not decided
+            return False
         if defs and all(k == "assign" and v is not None for k, _, v in defs):
             return any(_may_be_none(it, f, fl, lc, v, s if isinstance(s, ast.stmt) else stmt_of(f.node, s), seen | {e.id}, depth + 1)
                        for _, s, v in defs)
@@ -2608,6 +2659,122 @@ def _none_arguments(rep: Report, ctx: Any, funcs: list[FuncInfo]) -> None:
                           "instead of a diagnostic where the callee uses it", where(f, c), lhs=norm(a)[:60],
                           rhs="an empty container instead of None (`x or {}`), or a test on every way to the call")
     rep.floor("document_arguments_to_container_parameters", n_args, 6)
+
+
+# R06.2 (vii): operations that reject None, applied to optional values of the document
+
+# functions of the standard library that work on the text (or the number) they are given and raise TypeError / AttributeError on None:
+# callee suffix -> positions of the arguments concerned (None: all positional arguments)
+_REJECTS_NONE: dict[str, tuple[int, ...] | None] = {
+    "textwrap.indent": (0, 1), "indent": (0, 1), "textwrap.dedent": (0,), "dedent": (0,), "textwrap.fill": (0,), "fill": (0,),
+    "textwrap.wrap": (0,), "wrap": (0,), "textwrap.shorten": (0,), "shorten": (0,),
+    "re.sub": (0, 1, 2), "re.subn": (0, 1, 2), "re.match": (0, 1), "re.search": (0, 1), "re.fullmatch": (0, 1), "re.findall": (0, 1),
+    "re.finditer": (0, 1), "re.split": (0, 1), "re.compile": (0,), "re.escape": (0,),
+    "len": (0,), "int": (0,), "float": (0,), "abs": (0,), "round": (0,), "ord": (0,), "chr": (0,), "divmod": (0, 1), "pow": (0, 1),
+    "html.escape": (0,), "html.unescape": (0,), "shlex.quote": (0,), "shlex.split": (0,), "quote": (0,), "unquote": (0,), "quote_plus": (0,),
+    "urljoin": (0,), "json.loads": (0,), "unicodedata.normalize": (1,), "unicodedata.name": (0,), "unicodedata.category": (0,),
+    "keyword.iskeyword": (), "os.path.join": None, "os.path.basename": (0,), "os.path.dirname": (0,), "os.path.splitext": (0,),
+    "Path": None, "PurePosixPath": None, "PurePath": None, "fnmatch": (0, 1), "fnmatchcase": (0, 1),
+    "isoparse": (0,), "fromisoformat": (0,), "strptime": (0, 1), "UUID": (0,), "Decimal": (0,), "Fraction": (0,), "b64decode": (0,), "b64encode": (0,),
+    "math.floor": (0,), "math.ceil": (0,), "math.trunc": (0,), "math.isfinite": (0,), "math.isnan": (0,), "math.isinf": (0,), "math.log": (0,),
+    "math.sqrt": (0,),
+}
+# methods of str whose arguments must be text as well: `s.replace(a, None)`, `s.startswith(None)`, `sep.join([None])` (the elements)
+_STR_METHODS_TEXT_ARGS = {"replace", "startswith", "endswith", "removeprefix", "removesuffix", "find", "rfind", "index", "rindex", "count",
+                          "partition", "rpartition", "ljust", "rjust", "center", "zfill", "encode"}
+_ARITHMETIC = (ast.Add, ast.Sub, ast.Mult, ast.Div, ast.FloorDiv, ast.Mod, ast.Pow, ast.MatMult)
+_ORDERING = (ast.Lt, ast.LtE, ast.Gt, ast.GtE)
+
+
+def _none_rejecting_uses(ix: Any, it: Any, f: FuncInfo) -> list[tuple[str, ast.AST, ast.expr]]:
+    """(operation, node, operand) for every operation of the function that raises when its operand is None: attribute access and
+    method calls on it, arithmetic / concatenation / `%` formatting / ordering comparison with it, unary minus, the container
+    operations of (iv), the text and number functions of the standard library (table), text arguments of str methods"""
+    out: list[tuple[str, ast.AST, ast.expr]] = list(_container_uses(f.node))
+    for n in _own_nodes(f.node):
+        if isinstance(n, ast.Attribute) and isinstance(n.ctx, ast.Load):
+            out.append((f"`.{n.attr}`", n, n.value))
+        elif isinstance(n, ast.BinOp) and isinstance(n.op, _ARITHMETIC):
+            out += [("arithmetic / concatenation", n, n.left), ("arithmetic / concatenation", n, n.right)]
+        elif isinstance(n, ast.AugAssign) and isinstance(n.op, _ARITHMETIC):
+            out += [("arithmetic / concatenation", n, n.value), ("arithmetic / concatenation", n, n.target)]
+        elif isinstance(n, ast.UnaryOp) and isinstance(n.op, (ast.USub, ast.UAdd, ast.Invert)):
+            out.append(("arithmetic", n, n.operand))
+        elif isinstance(n, ast.Compare) and any(isinstance(o, _ORDERING) for o in n.ops):
+            xs = [n.left, *n.comparators]
+            out += [("ordering comparison", n, x) for i, x in enumerate(xs)
+                    if (i < len(n.ops) and isinstance(n.ops[i], _ORDERING)) or (i > 0 and isinstance(n.ops[i - 1], _ORDERING))]
+        elif isinstance(n, ast.Call):
+            if _callees(ix, it, f, n):
+                continue
+            cn = call_name(n)
+            positions: tuple[int, ...] | None = ()
+            for suf, pos in _REJECTS_NONE.items():
+                if cn == suf or cn.endswith("." + suf) and "." in suf:
+                    positions = pos
+                    break
+            else:
+                rv = it.node_av.get(id(n.func.value)) if isinstance(n.func, ast.Attribute) else None
+                if rv is not None and rv.types and set(rv.types) <= {"str"} and isinstance(n.func, ast.Attribute):
+                    if n.func.attr in _STR_METHODS_TEXT_ARGS:
+                        positions = None
+                    elif n.func.attr == "join" and n.args and isinstance(n.args[0], (ast.List, ast.Tuple)):
+                        out += [("`.join()` of", n, x) for x in n.args[0].elts if not isinstance(x, ast.Starred)]
+                if cn == "len" or cn in _ITERATING:
+                    continue  # already among the container operations
+            if cn == "len":
+                continue
+            for i, a in enumerate(n.args):
+                if isinstance(a, ast.Starred):
+                    break
+                if positions is None or i in positions:
+                    out.append((f"`{cn.rsplit('.', 2)[-1] if '.' not in cn else '.'.join(cn.rsplit('.', 2)[-2:])}()`", n, a))
+    return out
+
+
+def _optional_read(e: ast.AST, lc: Any, params: set[str], depth: int = 0) -> bool:
+    """the expression reads an optional field or an optional result where it stands: an attribute, the result of a call, or a local
+    that is only ever assigned (plainly) from such.  A parameter, a loop / unpacking target, an element taken out by subscription:
+    the interpreter's type for these is a join over everything they ever hold (all elements, all bindings) - not decided here."""
+    if isinstance(e, (ast.Attribute, ast.Call)):
+        return True
+    if isinstance(e, ast.Name) and e.id not in params and depth < 4:
+        defs = lc.defs.get(e.id, [])
+        return bool(defs) and all(k == "assign" and v is not None and all(_optional_read(w, lc, params, depth + 1) or isinstance(w, ast.Constant)
+                                                                          for w in _alternatives(v)) for k, _, v in defs)
+    return False
+
+
+def _none_operations(rep: Report, ctx: Any, funcs: list[FuncInfo], validators: list[FuncInfo]) -> None:
+    """R06.2 (vii).  Instances: every operation that rejects None (`_none_rejecting_uses`) whose operand is document-derived (abstract
+    interpreter) and has None among its abstract types - an optional field of the document, or of a diagnostic / property built from
+    it.  Obligation: the operand cannot be None there (`_may_be_none`: a fallback `x or ""`, a test on the same expression inside the
+    statement or on every path to it), or the operation sits in a try that catches what None raises (TypeError and AttributeError)."""
+    from ..astutil import Locals, role_anon, stmt_of
+
+    ix = ctx.py
+    it, _ = ctx.flow
+    n_ops = 0
+    for f in funcs:
+        fl: _Flow | None = None
+        lc = None
+        params = {p.arg for p in f.params}
+        for what, node, operand in _none_rejecting_uses(ix, it, f):
+            if fl is None:
+                fl, lc = _Flow(f, ix), Locals(f.node)
+            if not any((x := it.node_av.get(id(w))) is not None and "None" in x.types and x.labels & {RAW, RAW_NONSTR, UNKNOWN}
+                       and _optional_read(w, lc, params) for w in _alternatives(operand)):
+                continue
+            n_ops += 1
+            st = node if isinstance(node, (ast.stmt, ast.ExceptHandler)) else stmt_of(f.node, node)
+            hs = handlers_around(f.node, node)
+            ok = not _may_be_none(it, f, fl, lc, operand, st) or (caught("TypeError", hs) and caught("AttributeError", hs))
+            exc = "AttributeError / TypeError" if f not in validators else "AttributeError / TypeError (not wrapped into ValidationError)"
+            rep.check(ok, "R06.2", f"{short(f)}::{what} on optional {role_anon(operand, f.node)[:50]}",
+                      f"{what} is applied to `{norm(operand)[:60]}`, an optional value taken from the document (or from a diagnostic / property "
+                      f"built from it) that may be None there: {exc} instead of a diagnostic", where(f, node), lhs=norm(operand)[:60],
+                      rhs="a fallback (`x or \"\"`), or a test that rules None out on every way to the operation")
+    rep.floor("none_rejecting_operations_on_optional_document_values", n_ops, 8)
 
 
 # ---------------------------------------------------------------------------------------------------------------------------------
